@@ -43,7 +43,31 @@ def run(chk, tier):
     chk.trusted += ["codec leaf decoders invert leaf encoders and are self-delimiting", "rustc front end / MIR"]
 
 
+SHADOWABLE = {"decode", "decode_all", "decode_into", "skip", "encode", "encode_to", "size_hint", "using_encoded", "encoded_size", "encoded_fixed_size",
+              "serialize", "deserialize", "decode_all_with_depth_limit", "decode_with_depth_limit"}
+
+
+def check_entry_points(chk, prog, cfg):
+    chk.rule("R7.5", "the codec / serde entry points of the model types are the traits': no inherent associated function of a model type has the name of an "
+             "Encode / Decode / Serialize / Deserialize method (path-call syntax `T::decode(..)` resolves to an inherent function first, so such a function "
+             "silently replaces the derived behaviour for the usual spelling)")
+    models = set(c06.MODEL.values())
+    n = 0
+    for p_, f in prog.fns.items():
+        if f.get("kind") != "AssocFn" or p_.startswith("<"):
+            continue
+        sp = mir.strip_generics(p_)
+        owner, _, name = sp.rpartition("::")
+        if owner in models:
+            n += 1
+            if name in SHADOWABLE:
+                chk.fail("R7.5", "shadow:%s::%s" % (owner.split("::")[-1], name), f.get("loc"),
+                         "inherent function %s shadows the trait method of the same name in path-call syntax" % sp, cfg)
+    chk.expect(n > 0, "R7.5", "entry-points:trait-only", None, "%d inherent functions of the model types inspected; none is named like a codec / serde entry point" % n, cfg)
+
+
 def check_roundtrip(chk, prog, cfg):
+    check_entry_points(chk, prog, cfg)
     chk.rule("R7.1", "both Encode and Decode exist for each model type; provenance recorded (derive crate / hand-written)")
     chk.rule("R7.2", "reader grammar mirrors writer grammar: same symbol sequence, k-th decoded value stored in the field "
              "encoded k-th, tag table inverse of the writer's with pairwise distinct tags, every field written exactly once, "
